@@ -32,6 +32,8 @@ func init() {
 			"one produce in 4 writes into the caller's own *bufio.Writer (4096 bytes, which encoding/csv adopts as its buffer, or 16 bytes) over the scripted sink or into a *bytes.Buffer; a CSVReader source that hands out one reused slice; " +
 			"one group in 20 makes every call while two other goroutines use the SAME codec instance with their own texts and objects (joined with a WaitGroup, each judged against its own reference; the race detector watches); " +
 			"caller-set LazyQuotes / TrimLeadingSpace / ReuseRecord on a *csv.Reader source and UseCRLF on a *csv.Writer destination (outcome must be that of one of the two readings; classed); one group in 8 also calls with no reader, no writer, no data and a typed-nil pointer source. " +
+			"one text in 8 starts with a mark that is field text to a CSV parse (a byte order mark mostly; also a zero-width space, a no-break space, a NUL; once or twice; before a plain or quoted field, a comment line, alone on the first line), marks also occur inside; " +
+			"half of the option sets hand the option functions (WithCSVReaderOpts / WriterOpts / SkipLines / ClosesStream) to the codec in a random order instead of reader-writer-skip-close, now and then with a function spelt out with its zero value: the option SET, hence the expectation, is the same; " +
 			"expectation = encoding/csv itself with the same options, so all kinds are compared with one reference and therefore with one another. " +
 			"non-trivial = every executed case; distinct by (text feature set, direction, kind, destination pre-state, option set, stream class)",
 		Assumptions: []string{
@@ -55,6 +57,8 @@ func init() {
 			"a caller's own *bufio.Writer is flushed by the harness (as its owner would) after Produce returned and before the bytes are judged; whether the codec had flushed it already is classed. A sink fault that is only met by that flush is not the codec's to report",
 			"one codec instance used by several goroutines at once is outside the statement's quantifier (no schedules); it is exercised because servers share one consumer / producer per media type: each goroutine's outcome is judged against its own reference with a reduced oracle (outcome class, error text, records / bytes), and data races are reported by the race detector",
 			"io.ReaderFrom and encoding.BinaryUnmarshaler destinations are filled in one piece too: after the parser's error their method must not have been called",
+			"an option set is a SET: each option function is given at most once and the four functions name disjoint settings, so the order in which they are given must not matter; an option function given with its zero value (WithCSVSkipLines(0), WithCSVReaderOpts(csv.Reader{}), WithCSVWriterOpts(csv.Writer{})) is an unset option. The same function given twice with different values is not generated (which one wins is not in the statement)",
+			"a byte order mark (or any other character) at the start of the text is part of the first field for a standard CSV parse (encoding/csv keeps it), so 'same field text' and 'all kinds agree' hold for it as for any other text: no decoding step is part of the statement",
 		},
 		MinNontrivial: 500,
 		QuickTimeout:  0,
@@ -75,7 +79,18 @@ type Opts struct {
 	CRLF    bool   `json:"use_crlf,omitempty"`
 	Skip    int    `json:"skip,omitempty"`
 	Close   bool   `json:"close,omitempty"`
+	// Order: the option FUNCTIONS handed to CSVConsumer / CSVProducer, in the order they are given: a comma-separated
+	// list of "reader" (WithCSVReaderOpts), "writer" (WithCSVWriterOpts), "skip" (WithCSVSkipLines), "close"
+	// (WithCSVClosesStream). A function named here is given even when its value is the zero value (an explicit
+	// WithCSVSkipLines(0), WithCSVReaderOpts(csv.Reader{}) ...: an unset option); a function that carries a setting and
+	// is not named follows in the canonical order. "" = reader, writer, skip, close, each only when it carries a
+	// setting. The option SET is the same whatever the order: each function is given at most once and the four name
+	// disjoint settings, so the order changes no expectation.
+	Order string `json:"order,omitempty"`
 }
+
+// optionFuncs are the option functions in the canonical order.
+var optionFuncs = []string{"reader", "writer", "skip", "close"}
 
 func r1(s string) rune {
 	if s == "" {
@@ -103,25 +118,74 @@ func (o Opts) set() string {
 	add(o.CRLF, "crlf")
 	add(o.Skip > 0, "skip")
 	add(o.Close, "close")
+	add(o.Order != "", "order="+strings.ReplaceAll(o.Order, ",", ">"))
 	return strings.Join(b, ",")
+}
+
+// carries says which option functions carry a setting (a non-zero value).
+func (o Opts) carries() map[string]bool {
+	return map[string]bool{
+		"reader": o.Comma != "" || o.Comment != "" || o.Lazy || o.Trim || o.FPR != 0 || o.Reuse,
+		"writer": o.WComma != "" || o.CRLF,
+		"skip":   o.Skip != 0,
+		"close":  o.Close,
+	}
+}
+
+// given lists the option functions in the order they are handed to the codec.
+func (o Opts) given() []string {
+	need := o.carries()
+	done := map[string]bool{}
+	var l []string
+	for _, name := range strings.Split(o.Order, ",") {
+		if _, known := need[name]; !known || done[name] || (name == "close" && !o.Close) {
+			continue
+		}
+		done[name] = true
+		l = append(l, name)
+	}
+	for _, name := range optionFuncs {
+		if need[name] && !done[name] {
+			l = append(l, name)
+		}
+	}
+	return l
 }
 
 func (o Opts) sut() []runtime.CSVOpt {
 	var l []runtime.CSVOpt
-	rd := csv.Reader{Comma: r1(o.Comma), Comment: r1(o.Comment), LazyQuotes: o.Lazy, TrimLeadingSpace: o.Trim, FieldsPerRecord: o.FPR, ReuseRecord: o.Reuse}
-	if rd.Comma != 0 || rd.Comment != 0 || rd.LazyQuotes || rd.TrimLeadingSpace || rd.FieldsPerRecord != 0 || rd.ReuseRecord {
-		l = append(l, runtime.WithCSVReaderOpts(rd))
-	}
-	if o.WComma != "" || o.CRLF {
-		l = append(l, runtime.WithCSVWriterOpts(csv.Writer{Comma: r1(o.WComma), UseCRLF: o.CRLF}))
-	}
-	if o.Skip != 0 {
-		l = append(l, runtime.WithCSVSkipLines(o.Skip))
-	}
-	if o.Close {
-		l = append(l, runtime.WithCSVClosesStream())
+	for _, name := range o.given() {
+		switch name {
+		case "reader":
+			l = append(l, runtime.WithCSVReaderOpts(csv.Reader{Comma: r1(o.Comma), Comment: r1(o.Comment), LazyQuotes: o.Lazy, TrimLeadingSpace: o.Trim, FieldsPerRecord: o.FPR, ReuseRecord: o.Reuse}))
+		case "writer":
+			l = append(l, runtime.WithCSVWriterOpts(csv.Writer{Comma: r1(o.WComma), UseCRLF: o.CRLF}))
+		case "skip":
+			l = append(l, runtime.WithCSVSkipLines(o.Skip))
+		case "close":
+			l = append(l, runtime.WithCSVClosesStream())
+		}
 	}
 	return l
+}
+
+// orderClasses names what the order of the option functions exercises: every ordered pair of functions given, and
+// the functions given with their zero value.
+func (o Opts) orderClasses() []string {
+	if o.Order == "" {
+		return nil
+	}
+	out := []string{"option-functions/order-given"}
+	g, need := o.given(), o.carries()
+	for i := range g {
+		if !need[g[i]] {
+			out = append(out, "option-functions/given-with-zero-value/"+g[i])
+		}
+		for j := i + 1; j < len(g); j++ {
+			out = append(out, "option-functions/"+g[i]+"-before-"+g[j])
+		}
+	}
+	return out
 }
 
 // ---- reference: encoding/csv with the same options ----
@@ -427,6 +491,92 @@ func sameParserError(err, perr error) (bool, string) {
 	return true, ""
 }
 
+// leadingMarks are character sequences that text-handling code is tempted to take for an encoding mark or for padding
+// and to drop at the start of a text. To a standard CSV parse they are field text like any other: "same field text".
+var leadingMarks = []struct{ name, mark string }{
+	{"byte-order-mark", "\ufeff"},
+	{"zero-width-space", "\u200b"},
+	{"no-break-space", "\u00a0"},
+	{"nul", "\x00"},
+}
+
+// leadingMark names the mark a text starts with, and lists the text without it (one mark dropped; all of them dropped).
+func leadingMark(text string) (name string, without []string) {
+	for _, lm := range leadingMarks {
+		if strings.HasPrefix(text, lm.mark) {
+			one := strings.TrimPrefix(text, lm.mark)
+			without = append(without, one)
+			all := one
+			for strings.HasPrefix(all, lm.mark) {
+				all = strings.TrimPrefix(all, lm.mark)
+			}
+			if all != one {
+				without = append(without, all)
+			}
+			return lm.name, without
+		}
+	}
+	return "", nil
+}
+
+// explainInput names the input feature that accounts for an outcome which is NOT the reference's (called on the
+// violating branches only; the expectation is never taken from here). c is the case as the reference sees it, all
+// the records of the whole input before skipping (nil when it does not parse); the observation is the error, and
+// the records (isRecs) or the bytes delivered.
+//
+//   - "leading-<mark>-dropped": the text starts with a mark and the observation is what encoding/csv yields for the
+//     text without it;
+//   - "nothing-skipped/option-functions-in-another-order": lines were to be skipped, the option functions were not
+//     given in the canonical order, and the observation is the whole parse with nothing skipped.
+func explainInput(c *Case, all [][]string, gotRecs [][]string, gotBytes []byte, isRecs bool, err error) string {
+	same := func(want [][]string) bool {
+		if err != nil {
+			return false
+		}
+		if isRecs {
+			return sameRecords(gotRecs, want)
+		}
+		b, werr := refWrite(want, c.Opts, true)
+		return werr == nil && bytes.Equal(b, gotBytes)
+	}
+	if c.Opts.Order != "" && c.Opts.Skip > 0 && len(all) > 0 && same(all) {
+		return "nothing-skipped/option-functions-in-another-order"
+	}
+	name, without := leadingMark(string(c.Text))
+	for _, alt := range without {
+		recs, perr := refParse(alt, c.Opts, true)
+		if perr != nil {
+			if err != nil && err.Error() == perr.Error() {
+				return "leading-" + name + "-dropped"
+			}
+			continue
+		}
+		if same(skipRecs(recs, c.Opts.Skip)) {
+			return "leading-" + name + "-dropped"
+		}
+	}
+	return ""
+}
+
+// explainObserved is explainInput for what a destination holds.
+func explainObserved(c *Case, all [][]string, d dest, err error) string {
+	switch {
+	case d.records != nil:
+		return explainInput(c, all, d.records(), nil, true, err)
+	case d.bytes != nil:
+		return explainInput(c, all, nil, d.bytes(), false, err)
+	}
+	return ""
+}
+
+// withFeature appends the input feature (if one accounts for the outcome) to a signature.
+func withFeature(sig, feat string) string {
+	if feat == "" {
+		return sig
+	}
+	return sig + "/" + feat
+}
+
 func textFeatures(t string) string {
 	var f []string
 	add := func(c bool, s string) {
@@ -444,6 +594,10 @@ func textFeatures(t string) string {
 	add(strings.ContainsAny(t, ";\t|"), "alt-sep")
 	add(t != "" && !strings.HasSuffix(t, "\n"), "no-final-newline")
 	add(strings.Contains(t, ", ") || strings.Contains(t, "\n "), "lead-space")
+	if name, _ := leadingMark(t); name != "" {
+		add(true, "leading-"+name)
+	}
+	add(strings.Contains(strings.TrimPrefix(t, "\ufeff"), "\ufeff"), "inner-byte-order-mark")
 	return strings.Join(f, "+")
 }
 
@@ -641,6 +795,12 @@ func runCase(m *mon.M, c *Case) {
 	m.Eval(1)
 	if len(c.Text) > 4096 && longestLine(string(c.Text)) > 4096 {
 		m.Class("text/one-line-over-4KiB/" + c.Dir)
+	}
+	for _, cl := range c.Opts.orderClasses() {
+		m.Class(cl)
+	}
+	if name, _ := leadingMark(string(c.Text)); name != "" {
+		m.Class("text/leading-" + name + "/" + c.Dir)
 	}
 	switch c.Dir {
 	case "consume":
@@ -974,9 +1134,9 @@ func runConsume(m *mon.M, c *Case) {
 	if perr != nil {
 		m.Class("malformed-input")
 		if err == nil {
-			m.Violate("malformed-accepted/consume/"+dc, fmt.Sprintf("CSVConsumer into %s: input %s options {%s}: encoding/csv says %q, the consumer returned nil", c.Kind, short([]byte(text)), c.Opts.set(), perr), c)
+			m.Violate(withFeature("malformed-accepted/consume/"+dc, explainObserved(rc, nil, d, err)), fmt.Sprintf("CSVConsumer into %s: input %s options {%s}: encoding/csv says %q, the consumer returned nil", c.Kind, short([]byte(text)), c.Opts.set(), perr), c)
 		} else if err.Error() != perr.Error() {
-			m.Violate("not-the-parser-error/consume/"+dc, fmt.Sprintf("CSVConsumer into %s: input %s options {%s}: encoding/csv says %q, the consumer says %q", c.Kind, short([]byte(text)), c.Opts.set(), perr, err), c)
+			m.Violate(withFeature("not-the-parser-error/consume/"+dc, explainObserved(rc, nil, d, err)), fmt.Sprintf("CSVConsumer into %s: input %s options {%s}: encoding/csv says %q, the consumer says %q", c.Kind, short([]byte(text)), c.Opts.set(), perr, err), c)
 		} else if same, why := sameParserError(err, perr); !same {
 			// the text of the parser's error, but not the parser's error: callers tell it with errors.As / errors.Is
 			m.Violate("parser-error-identity-lost/consume/"+dc, fmt.Sprintf("CSVConsumer into %s: input %s options {%s}: the error reads %q like the parser's, but %s", c.Kind, short([]byte(text)), c.Opts.set(), err, why), c)
@@ -1022,7 +1182,11 @@ func runConsume(m *mon.M, c *Case) {
 			}
 		}
 		if !sameRecords(got, want) {
-			m.Violate("records-mismatch/consume/"+dc+"/"+explainRecords(c, got, want, nodef, nderr == nil), fmt.Sprintf("CSVConsumer into %s (%s): input %s options {%s}\n delivered %s\n expected  %s", c.Kind, pre, short([]byte(text)), c.Opts.set(), shortRecs(got), shortRecs(want)), c)
+			feat := explainObserved(rc, recs, d, err)
+			if feat == "" {
+				feat = explainRecords(c, got, want, nodef, nderr == nil)
+			}
+			m.Violate("records-mismatch/consume/"+dc+"/"+feat, fmt.Sprintf("CSVConsumer into %s (%s): input %s options {%s}\n delivered %s\n expected  %s", c.Kind, pre, short([]byte(text)), c.Opts.set(), shortRecs(got), shortRecs(want)), c)
 			return
 		}
 		if d.rw != nil && len(want) > 0 && (d.rw.flushes == 0 || d.rw.flushedAt != len(want)) {
@@ -1049,7 +1213,10 @@ func runConsume(m *mon.M, c *Case) {
 	}
 	got := d.bytes()
 	if !bytes.Equal(got, wantBytes) {
-		feat := explainBytes(rc, got, wantBytes, want, nodef, nderr == nil)
+		feat := explainObserved(rc, recs, d, err)
+		if feat == "" {
+			feat = explainBytes(rc, got, wantBytes, want, nodef, nderr == nil)
+		}
 		if c.objSet() && (feat == "writer-options-ignored" || feat == "writer-comma-ignored") {
 			// the separator the caller had set on its own *csv.Writer (no codec option names one) was replaced
 			feat = "caller-writer-comma-overridden"
@@ -1256,6 +1423,11 @@ func runProduce(m *mon.M, c *Case) {
 		return
 	}
 	want := skipRecs(recs, c.Opts.Skip)
+	ecv := rcv
+	if tableKind {
+		ecv.Text = "" // a record table holds no text a mark could be dropped from
+	}
+	ec := &ecv // the case the explanations of a mismatch work with
 	s, ok := mkSource(c.Kind, []byte(text), copyRecs(recs), c.O)
 	if !ok {
 		m.Violate("bad-replay-case", "unknown source kind "+c.Kind, c)
@@ -1401,12 +1573,12 @@ func runProduce(m *mon.M, c *Case) {
 	if perr != nil {
 		m.Class("malformed-input")
 		if err == nil {
-			m.Violate("malformed-accepted/produce/"+sc, fmt.Sprintf("CSVProducer from %s: input %s options {%s}: encoding/csv says %q, the producer returned nil (written %s)", c.Kind, short([]byte(text)), c.Opts.set(), perr, short(got)), c)
+			m.Violate(withFeature("malformed-accepted/produce/"+sc, explainInput(ec, nil, nil, got, false, err)), fmt.Sprintf("CSVProducer from %s: input %s options {%s}: encoding/csv says %q, the producer returned nil (written %s)", c.Kind, short([]byte(text)), c.Opts.set(), perr, short(got)), c)
 		} else if err.Error() != perr.Error() {
 			if c.Kind == "writerto" {
 				m.Class("writer-to-pipe-error-instead-of-parser-error")
 			}
-			m.Violate("not-the-parser-error/produce/"+sc, fmt.Sprintf("CSVProducer from %s: input %s options {%s}: encoding/csv says %q, the producer says %q", c.Kind, short([]byte(text)), c.Opts.set(), perr, err), c)
+			m.Violate(withFeature("not-the-parser-error/produce/"+sc, explainInput(ec, nil, nil, got, false, err)), fmt.Sprintf("CSVProducer from %s: input %s options {%s}: encoding/csv says %q, the producer says %q", c.Kind, short([]byte(text)), c.Opts.set(), perr, err), c)
 		} else if same, why := sameParserError(err, perr); !same {
 			// the text of the parser's error, but not the parser's error: callers tell it with errors.As / errors.Is
 			m.Violate("parser-error-identity-lost/produce/"+sc, fmt.Sprintf("CSVProducer from %s: input %s options {%s}: the error reads %q like the parser's, but %s", c.Kind, short([]byte(text)), c.Opts.set(), err, why), c)
@@ -1443,7 +1615,10 @@ func runProduce(m *mon.M, c *Case) {
 			nodef, nderr = refParse(text, ropts, false)
 			nodef = skipRecs(nodef, c.Opts.Skip)
 		}
-		feat := explainBytes(rc, got, wantBytes, want, nodef, nderr == nil)
+		feat := explainInput(ec, recs, nil, got, false, err)
+		if feat == "" {
+			feat = explainBytes(rc, got, wantBytes, want, nodef, nderr == nil)
+		}
 		if tableKind && len(c.Table) > 0 {
 			feat = "nil-or-empty-records"
 		}
